@@ -172,7 +172,7 @@ def covered : List (String × String × Ns) := [
   ("TRANSFORMER", "TransformerOutObjects.identifier_list", .object),
   ("VARIANT_CODING", "VarMeasurement.name", .object),
   ("VARIANT_CODING", "VarSelectionCharacteristic.name", .object),
-  ("VARIANT_CODING", "VarCharacteristic.criterion_name_list", .object),
+  ("VARIANT_CODING", "VarCharacteristic.name", .object),
   -- rename_typedef_refs
   ("INSTANCE", "Instance.type_ref", .typedef),
   ("TYPEDEF_STRUCTURE", "StructureComponent.component_type", .typedef),
